@@ -883,6 +883,18 @@ fn detour_ops(l: &Logical, rng: &mut Rng, mode: &str) -> Vec<String> {
     } else {
         ops.extend(adds);
     }
+    // (after the final adds, so that nothing repairs the store afterwards)
+    // idempotent re-adds and temporary twins: an id added twice with the same content, another id given
+    // the same content (before or after) and removed again
+    for (n, (id, c)) in l.tiles.iter().enumerate().take(6) {
+        let twin = BASE32 - 10 - n as u64;
+        let h = hex_bytes(c);
+        match n % 3 {
+            0 => ops.extend([format!("a:{id:x}:{h}"), format!("a:{id:x}:{h}"), format!("a:{twin:x}:{h}"), format!("r:{twin:x}")]),
+            1 => ops.extend([format!("a:{twin:x}:{h}"), format!("a:{id:x}:{h}"), format!("a:{id:x}:{h}"), format!("r:{twin:x}")]),
+            _ => ops.extend([format!("a:{id:x}:{h}"), format!("a:{twin:x}:{h}"), format!("a:{id:x}:{h}"), format!("r:{twin:x}")]),
+        }
+    }
     ops.extend(settings_ops(l));
     ops
 }
@@ -1066,8 +1078,12 @@ pub fn gen(prop: &str, rng: &mut Rng, quick: bool, st: &mut Stats) -> Option<Vec
                 let mode = if k % 2 == 0 { "sync" } else { "async" };
                 let m = &mode[..1];
                 let len = if k % 4 == 3 { if quick { 600 } else { 5000 } } else { rng.range(10, 120) as usize };
-                let pool = content_pool(rng, 6, false);
-                let idpool = gen_ids(rng, 10, k % 3 == 0);
+                // half of the histories use tiny alphabets so that re-adds of the same content, twins and
+                // removals of twins occur many times
+                let tiny = k % 2 == 1;
+                let pool = content_pool(rng, if tiny { 2 } else { 6 }, false);
+                let mut idpool = gen_ids(rng, if tiny { 3 } else { 10 }, k % 3 == 0);
+                idpool.truncate(if tiny { 3 } else { 10 });
                 let mut ops: Vec<String> = Vec::new();
                 if k % 3 == 1 {
                     let o = foreign_opts(rng, k, true);
